@@ -9,10 +9,13 @@ PENDING = {}
 pend_file = os.path.join(V, "lib", "pending.json")
 if os.path.exists(pend_file):
     PENDING = json.load(open(pend_file))
+import subprocess
+tracked = set(subprocess.run(["git", "-C", V, "ls-files", "lib/props"], capture_output=True, text=True).stdout.split())
 for p in props:
     pid = p["id"]
     path = os.path.join(V, "lib", "props", pid.lower() + ".py")
-    if not os.path.exists(path):
+    # a property is claimed once its module is committed (work in progress is not claimed)
+    if not os.path.exists(path) or ("lib/props/%s.py" % pid.lower()) not in tracked:
         na.append({"property_id": pid, "reason": PENDING.get(pid, "check not built yet in this round; planned as described in DESIGN.md section 6 (%s)" % pid)})
         continue
     mod = importlib.import_module("props." + pid.lower())
